@@ -1270,11 +1270,12 @@ func CheckC07(rr *RunResult, res *vprop.Result) (lateContFail bool, heldRerun bo
 			}
 		}
 		// "While a plan or block executes, each of its continuous checks keeps being re-run": liveness; the one bounded
-		// form that is sound under back-pressure (the result channel has a buffer of one and is polled only at sequence
-		// launches): when the harness itself held a sequence action of the scope for LongHold (250 ms, >= 100x the
-		// check's delay), the check must have run at least three times in total — its initial (gating) run, the loop's
-		// first run (its result fits the channel buffer) and a second loop run (which may then block on the full
-		// channel, legitimately) — i.e. it was re-run at least once after the loop's first result.
+		// form that is sound under back-pressure (results are handed over through a channel that is polled only at
+		// sequence launches, so the loop may legitimately block on its hand-over as soon as one result is waiting — or,
+		// with an unbuffered channel, as soon as its first run is done): when the harness itself held a sequence action
+		// of the scope for LongHold (250 ms, >= 100x the check's delay), the check must have run at least twice in total
+		// — its initial (gating) run and one run of the loop — i.e. it was re-run at least once while the scope
+		// executed. (An earlier version demanded three runs, which silently assumed a result buffer of one: DESIGN §8.)
 		for _, inv := range ix.All {
 			if inv.Ref.Plan != pi || !inv.Ref.IsSeq() || inv.Exit < 0 {
 				continue
@@ -1301,7 +1302,7 @@ func CheckC07(rr *RunResult, res *vprop.Result) (lateContFail bool, heldRerun bo
 				if failed, _ := anyRunFailed(ix, refs); failed {
 					continue // the loop legitimately stops at the first failed run
 				}
-				if len(runs) < 3 {
+				if len(runs) < 2 {
 					name := fmt.Sprintf("plan p%d", pi)
 					if scope >= 0 {
 						name = fmt.Sprintf("plan p%d block b%d", pi, scope)
